@@ -10,7 +10,7 @@ return); what `yield X` means, what futures are and who resumes whom differs.
 
 Program  = {"nodes": [Node...], "root": 0, "shared": [nid...], "kinds": n,
             "faults": {"<kind>:<key>": mode}, ...}
-Node     = {"style": str, "ret": "return"|"result", "body": [Stmt...]}
+Node     = {"style": str, "ret": "return"|"result"|"future", "body": [Stmt...]}
 Stmt     = ["yield", Struct] | ["yield", Struct, "twice"|"dup"]   same object yielded again / reached by two routes
          | ["sync", site, nid, how]          how: "call" | "value"
          | ["raise", site, cls]              cls: "exc" | "base"
@@ -113,6 +113,30 @@ def make_user_exc(cls, tag):
     return UserErr(tag)
 
 
+class FutureResult(object):
+    """A future object travelling as a plain VALUE (the result of a task). Compared by what it holds."""
+
+    def payload_of(self):
+        return self._payload
+
+    def __eq__(self, other):
+        return isinstance(other, FutureResult) and other.payload_of() == self.payload_of()
+
+    def __ne__(self, other):
+        return not self.__eq__(other)
+
+    def __hash__(self):
+        return hash(("FutureResult", repr(self.payload_of())))
+
+    def __repr__(self):
+        return "FutureResult(%r)" % (self.payload_of(),)
+
+
+class RefFutureResult(FutureResult):
+    def __init__(self, payload):
+        self._payload = payload
+
+
 class HarnessFault(Exception):
     """The harness itself is inconsistent (never a verdict on asynq)."""
 
@@ -209,6 +233,9 @@ def exec_node(rt, fr):
         yield from exec_block(rt, fr, node["body"])
         if node["ret"] == "result":
             rt.result(fr, fr.value())
+        if node["ret"] == "future":
+            # the task's RESULT is itself a future (handed back un-awaited, for the caller to deal with)
+            return rt.future_result(fr, fr.value())
         return fr.value()
     finally:
         fr.done = True
